@@ -15,6 +15,7 @@ VERIF = os.path.dirname(os.path.dirname(os.path.abspath(__file__)))
 
 
 def main():
+    os.environ["VERIF_KEEP_CACHE"] = "1"   # one extraction per scratch copy; removed below
     ap = argparse.ArgumentParser()
     ap.add_argument("seeds", nargs="*")
     ap.add_argument("--props", default=None)
@@ -63,6 +64,8 @@ def main():
                     json.dump(m, open(mp, "w"), indent=1)
         finally:
             shutil.rmtree(tmp, ignore_errors=True)
+            import hashlib
+            shutil.rmtree(os.path.join(VERIF, "build", "facts", hashlib.sha256(tmp.encode()).hexdigest()[:8]), ignore_errors=True)
     return 0
 
 
